@@ -852,6 +852,130 @@ static void run_path(int ntok, char **tok)
 	}
 }
 
+/* ---------------------------------------------------------------- kind N
+ * mpt_node_locate / mpt_node_query on sibling lists the harness links itself, holding every kind of
+ * identifier: names (mpt_identifier_set with a name: UTF8 + terminator), nameless identifiers
+ * (mpt_identifier_set(id, NULL, k): charset 0, k zero bytes), pointer identifiers (charset != 0,
+ * length 0, _base = one of four fixed addresses).  The list is installed as the top level of the
+ * process-global configuration, every node holds its own trail as value ("v0.1"), so the query
+ * operation also shows WHICH node the store reads. */
+static char ptr_tags[4];
+static MPT_STRUCT(node) *ln_make(const char *spec, const char *trail)
+{
+	MPT_STRUCT(node) *n = mpt_node_new(0);
+	MPT_STRUCT(value) val;
+	const char *txt = trail;
+	if (spec[0] == 'n') {
+		size_t len;
+		uint8_t *b = vh_unhex(spec + 1, &len);
+		if (!mpt_identifier_set(&n->ident, (const char *) b, (int) len)) { vh_tok("F:ident"); _exit(0); }
+		free(b);
+	}
+	else if (spec[0] == 'z') {
+		if (!mpt_identifier_set(&n->ident, 0, atoi(spec + 1))) { vh_tok("F:ident"); _exit(0); }
+	}
+	else if (spec[0] == 'p') {
+		int cs = 0, tag = 0;
+		sscanf(spec + 1, "%d.%d", &cs, &tag);
+		n->ident._charset = (uint8_t) cs;
+		n->ident._len = 0;
+		n->ident._base = tag ? ptr_tags + tag : 0;
+	}
+	MPT_value_set(&val, 's', &txt);
+	if (mpt_meta_set(&n->_meta, &val) < 0) { vh_tok("F:value"); _exit(0); }
+	return n;
+}
+static const void *key_ptr(int tag) { return tag ? ptr_tags + tag : 0; }
+static void run_locate(int ntok, char **tok)
+{
+	MPT_STRUCT(node) *top[64];
+	int n = atoi(tok[2]), i, t = 3;
+	if (n > 64) n = 64;
+	for (i = 0; i < n; i++) {
+		char *sp = strdup(tok[t++]), *sub, trail[64];
+		MPT_STRUCT(node) *prev = 0;
+		int j = 0;
+		if ((sub = strchr(sp, '/'))) *sub++ = 0;
+		snprintf(trail, sizeof(trail), "v%d", i);
+		top[i] = ln_make(sp, strdup(trail));
+		if (i) { top[i - 1]->next = top[i]; top[i]->prev = top[i - 1]; }
+		while (sub && *sub) {
+			char *e = strchr(sub, ';');
+			MPT_STRUCT(node) *c;
+			if (e) *e++ = 0;
+			snprintf(trail, sizeof(trail), "v%d.%d", i, j++);
+			c = ln_make(sub, strdup(trail));
+			c->parent = top[i];
+			if (prev) { prev->next = c; c->prev = prev; } else top[i]->children = c;
+			prev = c;
+			sub = e;
+		}
+	}
+	nodeGlobal = n ? top[0] : 0;
+	while (t < ntok) {
+		const char *op = tok[t++];
+		if (!strcmp(op, "loc")) {
+			const char *st = tok[t++];
+			int pos = atoi(tok[t++]);
+			const char *ks = tok[t++];
+			const MPT_STRUCT(node) *curr = strcmp(st, "~") ? top[atoi(st)] : 0, *r;
+			const void *id = 0;
+			uint8_t *kb = 0;
+			size_t len = 0;
+			int cs = -1;
+			if (ks[0] == 'd') { kb = vh_unhex(ks + 1, &len); id = kb; }
+			else if (ks[0] == 'c') { const char *d = strchr(ks, '.'); cs = atoi(ks + 1); kb = vh_unhex(d + 1, &len); id = kb; }
+			else if (ks[0] == 'p') { int tag = 0; sscanf(ks + 1, "%d.%d", &cs, &tag); id = key_ptr(tag); }
+			else if (ks[0] == 'x') { len = (size_t) atoi(ks + 1); id = 0; }
+			if (kb) {
+				/* exactly len readable bytes (ASan sees a read behind them) */
+				uint8_t *ex = (uint8_t *) malloc(len ? len : 1);
+				if (len) memcpy(ex, kb, len);
+				free(kb); kb = ex; id = ex;
+			}
+			errno = 0;
+			r = mpt_node_locate(curr, pos, id, len, cs);
+			if (!r) vh_tok(errno == EFAULT ? "f" : "n");
+			else {
+				for (i = 0; i < n && top[i] != r; i++) { }
+				if (i < n) vh_tok("i%d", i); else vh_tok("W");
+			}
+			free(kb);
+		}
+		else if (!strcmp(op, "q")) {
+			MPT_STRUCT(path) p = MPT_PATH_INIT, q;
+			const MPT_STRUCT(node) *r, *w;
+			unsigned sep = 0;
+			const char *str = 0;
+			int rc;
+			sscanf(tok[t++], "%2x", &sep);
+			p.sep = (char) sep;
+			p.assign = 0;
+			mpt_path_set(&p, cstr_of_hex(tok[t++]), -1);
+			q = p;
+			r = mpt_node_query(nodeGlobal, &q);
+			if (!r) vh_tok("q:-");
+			else {
+				/* the trail, from the links upwards */
+				int tr[8], d = 0;
+				for (w = r; w && d < 8; w = w->parent) {
+					const MPT_STRUCT(node) *s;
+					int k = 0;
+					for (s = w; s->prev; s = s->prev) k++;
+					tr[d++] = k;
+				}
+				vh_tok("q:");
+				while (d--) vh_add(d ? "%d." : "%d", tr[d]);
+			}
+			vh_add("|%zu.%zu|", q.off - p.off, q.len);
+			/* the same through the store */
+			rc = mpt_config_getp(0, &p, 's', &str);
+			put_str(rc, str);
+		}
+		else { fprintf(stderr, "bad op %s\n", op); _exit(3); }
+	}
+}
+
 static void run_case(int ntok, char **tok)
 {
 	if (ntok < 2) return;
@@ -860,6 +984,7 @@ static void run_case(int ntok, char **tok)
 	  case 'J': run_items(ntok, tok); break;
 	  case 'M': run_metaset(ntok, tok); break;
 	  case 'P': run_path(ntok, tok); break;
+	  case 'N': run_locate(ntok, tok); break;
 	  default: break;
 	}
 }
